@@ -75,6 +75,9 @@ impl Area for TimerArea {
             let ssum = h.as_ref().unwrap().get_sample_sum();
             if !(ssum >= sum_lo && ssum <= sum_hi + 1e-9) { fails.push(Failure { class: "timer-value".into(), detail: format!("after `{}`: sample sum {} is not (flushed plain observations {}) + (one duration in [0, wall-clock time since start] per recorded timer: at most {})", line, ssum, sum_lo, sum_hi) }); }
             if parent.as_ref().unwrap().get_sample_sum() != pend_sum { fails.push(Failure { class: "timer-value".into(), detail: format!("after `{}`: the parent local histogram's pending sum is {}, its own plain observations give {}", line, parent.as_ref().unwrap().get_sample_sum(), pend_sum) }); }
+            // the buckets agree with the count: every recorded value is >= 0 and far below 1e9, so the one finite bucket holds all of them (bound 1e9) or none (bound -1)
+            { let mf = prometheus::core::Collector::collect(h.as_ref().unwrap()); let hp = mf[0].get_metric()[0].get_histogram(); let b0 = hp.get_bucket().first().map(|b| (b.upper_bound(), b.cumulative_count()));
+              if let Some((ub, cc)) = b0 { let wantb = if ub < 0.0 { 0 } else { hp.get_sample_count() }; if cc != wantb { fails.push(Failure { class: "timer-contribution".into(), detail: format!("after `{}`: bucket le={} holds {} of {} observations, expected {}", line, ub, cc, hp.get_sample_count(), wantb) }); } } }
             if h.as_ref().unwrap().get_sample_sum() < 0.0 { fails.push(Failure { class: "negative-duration".into(), detail: "negative sample sum".into() }); }
             outs.push(format!("shared={} parent={}", shared, par));
         }
